@@ -3,6 +3,8 @@ package prog
 import (
 	"fmt"
 
+	"github.com/onflow/cadence/common"
+
 	"verif/harness/core"
 	"verif/harness/host"
 )
@@ -14,9 +16,10 @@ import (
 func init() {
 	core.Register(&core.Prop{
 		ID:   "C34",
-		Rule: "every generated script and every step of every generated transaction history (contract deployment + 3..6 transactions that create/move/store/load resources and values) is run on interpreter, VM and VM+peephole from identical ledgers; distinct = distinct accepted program text; non-trivial = accepted and executed on all three engines",
+		Rule: "every generated script and every step of every generated transaction history (contract deployment + 3..6 transactions that create/move/store/load resources and values) is run on interpreter, VM and VM+peephole from identical ledgers; distinct = distinct accepted program text; non-trivial = accepted and executed on all three engines; a diverging program is delta-minimised and its normalised skeleton is the witness key",
 		Assumptions: []string{
-			"outcomes are compared on: JSON-CDC bytes of the result, error class (user/internal/external) and Go type name of the innermost error (package prefix stripped), event strings, log lines, and the byte-exact sorted register dump after each transaction",
+			"outcomes are compared on: JSON-CDC bytes of the result, error class (user/internal/external) and Go type name of the innermost error (package prefix stripped), event strings, log lines, ordered register writes and the byte-exact sorted register dump after each transaction",
+			"a history is compared up to and including its first diverging step (later steps start from different ledgers)",
 		},
 		NumCases: func(tier string) int {
 			if tier == "thorough" {
@@ -56,63 +59,116 @@ func runC34(c *core.Ctx) {
 			a, b := pair[0], pair[1]
 			if f, av, bv := diffObs(obs[a], obs[b], false); f != "" {
 				ea, eb := host.AllEngines[a], host.AllEngines[b]
-				c.Violate(fmt.Sprintf("script %s-vs-%s differs in %s (%s / %s)", ea, eb, f, obs[a].ErrKind, obs[b].ErrKind),
+				min := minimize(p.Source, func(cand string) bool {
+					ha, hb := host.New(), host.New()
+					oa := ha.RunScript(ea, cand, nil, nil)
+					ob := hb.RunScript(eb, cand, nil, nil)
+					if isCheckerRejection(oa) || isCheckerRejection(ob) {
+						return false
+					}
+					f2, _, _ := diffObs(observe(ha, oa), observe(hb, ob), false)
+					return f2 == f
+				}, 300)
+				c.Violate(fmt.Sprintf("script %s-vs-%s differs in %s | min %s", ea, eb, f, skeletonKey(min)),
 					fmt.Sprintf("script outcome differs between %s and %s in %s: %s  vs  %s", ea, eb, f, core.Clip(av, 300), core.Clip(bv, 300)),
-					map[string]any{"program": p.Source, "field": f, ea.String(): av, eb.String(): bv, "features": topFeatures(p.Features)})
+					map[string]any{"program": p.Source, "minimal_program": min, "field": f, ea.String(): av, eb.String(): bv, "features": topFeatures(p.Features)})
+				break
 			}
 		}
 		if i == 0 && c.WantSample() {
 			c.Sample(map[string]any{"kind": "script", "source": p.Source, "result": core.Clip(obs[0].Result, 300), "logs": len(obs[0].Logs)})
 		}
 	}
-	// transaction history
-	var hist [3][]Obs
-	for ei, eng := range host.AllEngines {
-		hist[ei] = s.runHistory(eng, nil, nil)
-		c.Eval(int64(len(hist[ei])))
+
+	// transaction history: the three engines step in lock-step, each on its own ledger
+	var hs [3]*host.Host
+	for ei := range host.AllEngines {
+		hs[ei] = host.New()
 	}
-	n := len(hist[0])
-	if len(hist[1]) < n {
-		n = len(hist[1])
+	steps := append([]string{fmt.Sprintf(`transaction { prepare(signer: auth(Contracts) &Account) { signer.contracts.add(name: "C0", code: "%x".decodeHex()) } }`, s.Contract)}, nil...)
+	for _, t := range s.Txs {
+		steps = append(steps, t.Source)
 	}
-	if len(hist[2]) < n {
-		n = len(hist[2])
-	}
-	if len(hist[0]) > 1 {
-		c.Inc("committed_histories")
-	}
-	for step := 0; step < n; step++ {
+	signers := []common.Address{host.Addr(1)}
+	for step, src := range steps {
+		var obs [3]Obs
+		var pre [3]*host.Ledger
+		var preUUID [3]uint64
+		rejected := false
+		for ei, eng := range host.AllEngines {
+			h := hs[ei]
+			pre[ei], preUUID[ei] = h.Ledger.Clone(), h.UUID
+			h.ResetTrace()
+			o := h.RunTx(eng, src, nil, signers, nil)
+			c.Eval(1)
+			if isCheckerRejection(o) && step > 0 {
+				rejected = true
+			}
+			obs[ei] = observe(h, o)
+		}
+		if rejected {
+			c.Inc("tx_rejected_by_checker")
+			continue
+		}
 		c.Inc("tx_compared")
 		if step > 0 {
-			c.Distinct(s.Txs[step-1].Source)
+			c.Distinct(src)
 		}
-		if len(hist[0][step].Ledger) > 0 {
+		if step == 1 {
+			c.Inc("committed_histories")
+		}
+		if len(obs[0].Ledger) > 0 {
 			c.Inc("nonempty_ledgers")
 		}
-		if hist[0][step].ErrClass == "user" {
+		if obs[0].ErrClass == "user" {
 			c.Inc("user_errors_compared")
 		}
+		diverged := false
 		for _, pair := range [][2]int{{0, 1}, {1, 2}} {
 			a, b := pair[0], pair[1]
-			if f, av, bv := diffObs(hist[a][step], hist[b][step], true); f != "" {
-				ea, eb := host.AllEngines[a], host.AllEngines[b]
-				src := s.Contract
-				if step > 0 {
-					src = s.Txs[step-1].Source
-				}
-				var prior []string
-				for k := 0; k < step-1 && k < len(s.Txs); k++ {
-					prior = append(prior, s.Txs[k].Source)
-				}
-				c.Violate(fmt.Sprintf("tx %s-vs-%s differs in %s (%s / %s)", ea, eb, f, hist[a][step].ErrKind, hist[b][step].ErrKind),
-					fmt.Sprintf("transaction step %d differs between %s and %s in %s: %s  vs  %s", step, ea, eb, f, core.Clip(av, 300), core.Clip(bv, 300)),
-					map[string]any{"contract": s.Contract, "step": step, "program": src, "prior_transactions": prior, "field": f, ea.String(): av, eb.String(): bv})
-				break
+			f, av, bv := diffObs(obs[a], obs[b], true)
+			if f == "" {
+				continue
 			}
+			diverged = true
+			ea, eb := host.AllEngines[a], host.AllEngines[b]
+			codes := hs[a].Codes
+			rerun := func(eng host.Engine, ei int, cand string) (Obs, bool) {
+				h2 := host.New()
+				h2.Ledger = pre[ei].Clone()
+				for k, v := range codes {
+					h2.Codes[k] = v
+				}
+				h2.UUID = preUUID[ei]
+				o2 := h2.RunTx(eng, cand, nil, signers, nil)
+				return observe(h2, o2), !isCheckerRejection(o2)
+			}
+			min := src
+			if step > 0 {
+				min = minimize(src, func(cand string) bool {
+					oa, ok1 := rerun(ea, a, cand)
+					ob, ok2 := rerun(eb, b, cand)
+					if !ok1 || !ok2 {
+						return false
+					}
+					f2, _, _ := diffObs(oa, ob, true)
+					return f2 == f
+				}, 300)
+			}
+			var prior []string
+			for k := 1; k < step; k++ {
+				prior = append(prior, steps[k])
+			}
+			c.Violate(fmt.Sprintf("tx %s-vs-%s differs in %s | min %s", ea, eb, f, skeletonKey(min)),
+				fmt.Sprintf("transaction step %d differs between %s and %s in %s: %s  vs  %s", step, ea, eb, f, core.Clip(av, 300), core.Clip(bv, 300)),
+				map[string]any{"contract": s.Contract, "step": step, "program": src, "minimal_program": min, "prior_transactions": prior, "field": f, ea.String(): av, eb.String(): bv})
+			break
 		}
-	}
-	if len(hist[0]) != len(hist[1]) || len(hist[1]) != len(hist[2]) {
-		c.Violate("history-length-differs", fmt.Sprintf("deployment outcome differs between engines: %d/%d/%d steps ran", len(hist[0]), len(hist[1]), len(hist[2])),
-			map[string]any{"contract": s.Contract, "I": hist[0][0], "V": hist[1][0], "Vp": hist[2][0]})
+		if diverged {
+			break
+		}
+		if step == 0 && obs[0].ErrClass != "none" {
+			break // contract did not deploy
+		}
 	}
 }
